@@ -32,7 +32,8 @@ type CaseC18 struct {
 	ErrOnce     bool    `json:"err_once,omitempty"`      // ... and only once: later reads go on delivering data (a deadline, not a dead source)
 	ErrKind     int     `json:"err_kind"`                // error the failing reader returns: 0 plain, 1 timeout-like (Timeout() true), 2 os.ErrDeadlineExceeded, 3 io.ErrNoProgress, 4 wraps io.EOF, 5 wraps io.ErrUnexpectedEOF, 6 io.ErrUnexpectedEOF itself
 	Reader      int     `json:"reader"`                  // 0 bytes.Reader 1 bufio 2 one-byte 3 half 4 data-with-EOF 5 chunks
-	Chunks      []int   `json:"chunks"`                  // for reader kind 5
+	Chunks      []int   `json:"chunks"`                  // for reader kind 5; a chunk of 0 is a Read that returns (0, nil) once, which io.Reader allows
+	BufSize     int     `json:"buf_size,omitempty"`      // for reader kind 1 (0 = 4096): bufio buffers smaller than a packet too
 	ReadFail    int     `json:"read_fail"`               // reader fails with its own error after this many bytes, -1 = never
 	ViaCopy     bool    `json:"via_copy"`                // drive ReadFrom through io.Copy
 	Again       bool    `json:"again"`                   // call ReadFrom a second time on the SAME adapter (with an intact stream)
@@ -58,6 +59,14 @@ func genC18(t *rapid.T) CaseC18 {
 	c.Reader = rapid.SampledFrom([]int{0, 1, 2, 3, 4, 5, 5, 5, 6}).Draw(t, "reader") // 6 = a regular file
 	if c.Reader == 5 {
 		c.Chunks = rapid.SliceOfN(rapid.IntRange(1, 400), 1, 6).Draw(t, "chunks")
+		if rapid.IntRange(0, 3).Draw(t, "empty-read") == 0 {
+			// a Read that delivers nothing and reports no error: "nothing happened", the stream goes on
+			c.Chunks[rapid.IntRange(0, len(c.Chunks)-1).Draw(t, "empty-read-at")] = 0
+			c.Chunks = append(c.Chunks, rapid.IntRange(1, 400).Draw(t, "chunk-after-empty"))
+		}
+	}
+	if c.Reader == 1 {
+		c.BufSize = rapid.SampledFrom([]int{0, 16, 17, 64, 100, 187, 188, 189, 376, 4096, 65536}).Draw(t, "bufio-size")
 	}
 	c.ReadFail = -1
 	if rapid.IntRange(0, 4).Draw(t, "rfail") == 0 {
@@ -273,7 +282,11 @@ func checkC18(c CaseC18, x *hx.Ctx) (fail *hx.Failure) {
 	case 0:
 		r = base
 	case 1:
-		r = bufio.NewReaderSize(base, 4096)
+		size := c.BufSize
+		if size == 0 {
+			size = 4096
+		}
+		r = bufio.NewReaderSize(base, size)
 	case 2:
 		r = iotest.OneByteReader(base)
 	case 3:
@@ -390,7 +403,7 @@ func checkC18(c CaseC18, x *hx.Ctx) (fail *hx.Failure) {
 var propC18 = hx.Register(hx.Prop[CaseC18]{ID: "C18", Gen: genC18, Check: checkC18})
 
 func c18Rule() {
-	hx.Rec("C18").SetRule("cases: 0..12 packets of deterministic contents (+ 0..187 extra bytes), a packet-writer mock that records a copy of every packet and fails at a drawn index with a drawn count, the four adapter constructions plus two over a packet writer whose type also has its own Write method, and for ReadFrom the same contents through bytes.Reader, bufio.Reader, one-byte reader, half reader, data-with-EOF reader, a regular file, drawn chunk sizes 1..400, and a reader that fails after k bytes with a plain, timeout-like, os.ErrDeadlineExceeded, io.ErrNoProgress or EOF-wrapping error reported with or after the last bytes, once or for good (followed by a second ReadFrom on the same adapter); ReadFrom driven directly or through io.Copy. Oracle: the sequence of packets seen by the mock, returned count and error, per the statement. Enumerated: every (packet count 0..6, partial tail in {0,1,94,187}, reader kind, failing position) combination. Non-trivial: a fragmenting reader (not one packet per Read) or a failure position strictly inside the sequence.",
+	hx.Rec("C18").SetRule("cases: 0..12 packets of deterministic contents (+ 0..187 extra bytes), a packet-writer mock that records a copy of every packet and fails at a drawn index with a drawn count, the four adapter constructions plus two over a packet writer whose type also has its own Write method, and for ReadFrom the same contents through bytes.Reader, bufio.Reader (buffer sizes 16..65536, also smaller than a packet), one-byte reader, half reader, data-with-EOF reader, a regular file, drawn chunk sizes 1..400 (optionally with a Read that returns (0, nil) in between), and a reader that fails after k bytes with a plain, timeout-like, os.ErrDeadlineExceeded, io.ErrNoProgress or EOF-wrapping error reported with or after the last bytes, once or for good (followed by a second ReadFrom on the same adapter); ReadFrom driven directly or through io.Copy. Oracle: the sequence of packets seen by the mock, returned count and error, per the statement. Enumerated: every (packet count 0..6, partial tail in {0,1,94,187}, reader kind, failing position) combination. Non-trivial: a fragmenting reader (not one packet per Read) or a failure position strictly inside the sequence.",
 		"the packet-writer mock returns 188 on success (the io.Writer-style contract the adapter documents)")
 }
 
